@@ -40,37 +40,37 @@ REGEX_FILES = {
 
 add('C01', ['C01Spec', 'C01', 'C01b', 'C01c', 'C01d', 'C01e', 'C01f', 'C01g', 'C01h', 'C01i'], ['corr.doc', 'corr.nest', 'corr.nest2', 'corr.brdoc', 'corr.linkdoc'] + PIPE,
     'Lean 4: specification `spec : Doc → html` of the construct grammar + print; theorems on the pipeline model for sub-grammars; spec and model both tied to the implementation by correspondence',
-    'PARTIAL: the print-then-parse theorem is proved only for the sub-grammar named in Props/C01*.lean; for the rest of the grammar the Lean `spec` is compared with the implementation by correspondence and search only.')
+    'PARTIAL: `convert (print d sp) = spec d` is proved for the sub-grammars named in Props/C01*.lean (whole block grammar nested to any depth with two-level emphasis, code spans, escapes; hard breaks, inline links and images in flat documents); for the rest (code blocks inside nesting, links inside nested blocks, reference spellings, autolinks) the Lean `spec` is compared with the implementation by correspondence and search only.')
 add('C02', ['C02Block', 'C02Inline', 'C02X', 'C02Big', 'C02Fn'], PIPE + ['corr.extract', 'corr.code', 'corr.attrlist', 'corr.pipelinex'],
-    'Lean 4 termination proofs: the fuel bounds of the block parser (and of the inline engine) always suffice — `parseDocument` is total for every input; total pipeline model tied by end-to-end correspondence; broad search for exceptions/timeouts',
-    'PARTIAL: proved for the core pipeline model on text without `<`; the stdlib HTML tokenizer, unmodelled extensions and CPython\'s recursion limit (F-C02-3) are outside the theorems — for them only the search speaks.')
+    'Lean 4 totality proofs: the block parsers (core and extended) never run out of fuel; for every `<`-free source the core pipeline with a provably sufficient inline fuel returns a string (never raises), the same for the extension pipeline with every subset of the eleven modelled extensions under decidable domain conditions; pipeline models tied by end-to-end correspondence; broad search for exceptions/timeouts',
+    'PARTIAL: proved on the pipeline models for text without `<` (the model\'s own linear inline fuel is an explicit gap: C02_run_total_full); the stdlib HTML tokenizer, md_in_html/smarty/codehilite and CPython\'s recursion limit (F-C02-3) are outside the theorems — for them only the search speaks.')
 add('C03', ['C03Code', 'C03', 'C03Fenced', 'C03X'], ['corr.code', 'corr.pipelinex'] + PIPE,
     'Lean 4 proofs: code_escape composed with the serializer escapes exactly once and reads back to the body (for all strings); fenced-code recogniser/stash theorems; code text carried through the pipeline model',
-    'PARTIAL: the stdlib tokenizer is not modelled (F-C03-1 lives there); "whatever surrounds the code" is proved for the placements named in Props/C03*.lean, the others are covered by correspondence and search.')
+    'PARTIAL: the raw-HTML tokenizer interplay is outside (F-C03-1/2/4/5/6/7 live there); "whatever surrounds the code" is proved for the placements named in Props/C03*.lean (top-level documents of paragraphs and code blocks, spans, fenced blocks, each with every extension set), code inside lists/quotes with extensions by correspondence and search.')
 add('C04', ['C04', 'C04Text', 'C04Many'], ['corr.extract', 'corr.htmltok', 'corr.pipelineh'],
     'Lean 4 proofs over an event-level model of HTMLExtractor (state machine over tokenizer events) and of the raw-HTML restore: a balanced block is stashed verbatim exactly once and restored unwrapped; events recorded from the real parser are replayed in the model',
-    'PARTIAL: the stdlib tokenizer that produces the events is trusted, not modelled (F-C04-1 lives there); blocks starting while `intail`, md_in_html and multi-pass restore are covered by correspondence/search only.')
+    'PARTIAL: a fragment of the stdlib tokenizer is modelled at text level (Model/HtmlTok.lean, tied by corr.htmltok/pipelineh) and carries the end-to-end theorems of Props/C04Text/C04Many; incomplete constructs (F-C04-1/2), inline raw HTML end to end, script/style and md_in_html are covered by correspondence/search only.')
 add('C05', ['C05Block', 'C05', 'C05Amp', 'C05Full', 'C05X', 'C05XFull', 'C14'], PIPE + ['corr.serializer', 'corr.readers', 'corr.c05x'],
     'Lean 4 proofs: vocabulary/void invariant of every tree the block (and inline) model builds + serializer round-trip theorem (strict reader accepts the output and reads back the tree)',
-    'PARTIAL: the composition to the final output string is proved as far as Props/C05*.lean state; the `&`/entity-stash case rests on correspondence. "Entity reference" is read as the code reads it (digit-initial names allowed).')
+    'Core pipeline: full for every `<`-free source (C05_full). Extension pipeline PARTIAL as stated in Props/C05X*.lean (admonition excluded: F-C14-2; attr_list may write non-XML attribute names: documented). Sources with raw HTML by search. "Entity reference" is read as the code reads it (digit-initial names allowed).')
 add('C06', ['C06Block', 'C06Inline', 'C06', 'C06Links', 'C06X'], PIPE,
     'Lean 4 conservation invariants: letters(tree) ++ letters(pending blocks) is constant through every block processor; inline patterns conserve the flattened text',
-    'PARTIAL: block half and inline half proved separately as far as Props/C06*.lean state; `isLetter` is an arbitrary class disjoint from markup characters.')
+    'End to end on the core pipeline model for the domain without `& <` (links in the forms of Props/C06Links); extension pipeline as far as Props/C06X.lean states; `isLetter` is an arbitrary class disjoint from markup characters.')
 add('C07', ['C07Block', 'C07', 'C07X'], PIPE + ['corr.normalize', 'corr.pipelinex'],
     'Lean 4 proof on the pipeline model: a text in which every character of the GENERATED ESCAPED_CHARS table is backslash-escaped parses to a single paragraph (all recognisers proved inert) and renders as itself; table membership discharged by decide over the regenerated table',
-    'PARTIAL until Props/C07.lean carries the end-to-end theorem; extensions that extend the escapable set (tables, smarty) are covered for the block stage by the `extra` parameter, smarty only by search.')
+    'End to end on the core pipeline (C07) and on the extension pipeline for every set of the eleven modelled extensions (C07X; exclusions = non-escapable triggers, kernel-checked); smarty and the other unmodelled extensions only by search.')
 add('C08', ['C08Block', 'C08Inline', 'C08', 'C08Src'], PIPE,
     'Lean 4 locality proofs on the block model (processors never look past blocks[0]; the parent is read only through its last child) and stash-counter independence of the inline model',
-    'PARTIAL: as far as Props/C08*.lean state; the composition of both halves rests on correspondence where not proved.')
+    'PARTIAL: source-level theorem on the domain of Props/C08Src.lean (no `[ & < >`; stash bound as a computed hypothesis); outside it by correspondence and search.')
 add('C09', ['C09', 'C09Doc', 'C09X', 'C09XCode'], ['corr.normalize', 'corr.pipeline', 'corr.pipelinex'],
     'Lean 4 proofs about the model of NormalizeWhitespace (line endings, tabs, STX/ETX, whitespace-only lines, leading/trailing blank lines), stated for the step list regenerated from the source; unit correspondence for tab lengths 0-8',
-    'PARTIAL: the normalisation theorems are full; the lift "the rest of convert reads only the normalised text" is by construction of the pipeline model and end-to-end correspondence. F-C09-1 (whitespace-only first line) was repaired (fix: commit a0e7e3c); the first-line theorems are now unconditional.')
+    'The normalisation theorems are full; the document-level theorems hold on the pipeline models (core and all extension sets: Props/C09Doc, C09X, C09XCode). F-C09-1 (whitespace-only first line) was repaired (fix: commit a0e7e3c); the first-line theorems are now unconditional.')
 add('C10', ['C10', 'C10b', 'C10c', 'C10X', 'C10XPost', 'C10XTree', 'C10XToc', 'C10XTocAttr', 'C10XLate', 'C10XRaw', 'C10XC', 'C10XBlock', 'C10XCAll', 'C10XFn', 'C10XFnLeak', 'C10XAll', 'C10XFenceBlock', 'C10XCAllF', 'C10XAllAmp', 'C10XCAllAmp', 'C09'], PIPE + ['corr.pipelinex'],
     'Lean 4 proofs: input cannot forge placeholders (normalisation strips STX/ETX), post-conditions of every restore step, placeholder invariants of the inline model on the pattern subset that cannot leak; the model leaks where the code leaks (kernel-checked)',
-    'PARTIAL: link/reference/image/autolink/html/entity patterns and extensions are outside the proved subset (F-C10-1/2/3 live there).')
+    'PARTIAL: proved on the leak-free domains of Props/C10*.lean for the core pipeline and for every subset of the eleven modelled extensions; the regions of F-C10-1..8 are excluded by explicit decidable hypotheses and kernel-checked; raw HTML and unmodelled extensions by search.')
 add('C11', ['C11', 'C11Census', 'C11X'], ['corr.instancex'],
     'Lean 4 frame theorem on an abstract instance state machine (reset re-establishes the fresh state for every non-raising history) + census theorems decided by the kernel over tables regenerated from the source AST: every conversion-time write to instance state is re-initialised by reset() or on a justified allow-list',
-    'PARTIAL: the abstract model takes `convert` as a parameter; that the census categories are the right reading of the code is checked dynamically by the oracle (fresh vs reset instances, attribute census). F-C11-1 was repaired (fix: commit f86514b): reset() clears parser.state, the theorems hold for every history; the pre-repair reset is kept as a labelled counterexample.')
+    'The abstract model takes `convert` as a parameter; the concrete stateful model (Model/InstanceX.lean, tied by corr.instancex) instantiates it for the eleven modelled extensions + meta (Props/C11X); for the other extensions the census theorems + the oracle (fresh vs reset instances, attribute census) speak. F-C11-1 was repaired (fix: commit f86514b): reset() clears parser.state, the theorems hold for every history; the pre-repair reset is kept as a labelled counterexample.')
 add('C12', ['C12', 'C11Census', 'C12X'], ['corr.threadsx', 'corr.instancex'],
     'Lean 4 schedule-independence theorem for confined threads over read-only/memo shared cells (every interleaving = sequential run) + kernel-decided census over the regenerated table of run-time writes to module/class-level state (must be on the memo allow-list)',
     'PARTIAL: CPython/GIL atomicity, `re` cache, importlib locks, xml.etree internals are trusted; a theorem about this model cannot exhibit a data race inside the interpreter. Threaded runs are the search.')
@@ -82,12 +82,12 @@ add('C14', ['C14', 'C14Doc', 'C14DocDomain', 'C14X'], ['corr.serializer', 'corr.
     'Tree level full; document level PARTIAL (the format leaks into stashed HTML through md.serializer inside HtmlInlineProcessor.unescape, toc, md_in_html): checked by correspondence and search. F-C14-1 (void element with text) is a kernel-checked counterexample.')
 add('C15', ['C15', 'C15Inline', 'C15Forms', 'C15Text'], PIPE,
     'Lean 4 proofs on the block model: the reference-definition recogniser accepts every title spelling, a definition adds exactly one map entry and no node, position independence, label normalisation',
-    'PARTIAL: the rendering of the resolved link (inline stage) rests on correspondence where not proved.')
+    'End to end for the reference forms and document shapes of Props/C15Forms/C15Text (marked-up link text, n definitions x m uses, definitions anywhere among blocks); uses inside nested blocks by correspondence.')
 add('C16', ['C16Tables', 'C16Triggers', 'C16AttrList', 'C16Fenced', 'C16BlockExt', 'C16Order', 'C16Pipeline', 'C16Render',
             'C16RenderFence', 'C16RenderWiki', 'C16RenderX', 'C16RenderG', 'C16Meta'],
     ['corr.tables', 'corr.triggers', 'corr.attrlist', 'corr.code', 'corr.blockext', 'corr.dispatch', 'corr.pipelinex', 'corr.meta'],
     'Lean 4 proofs: table cell splitting/row width/alignment theorems, attribute-list print/parse round trip, entry recognisers of every extension need their trigger + dispatcher inertness theorem (non-interference), fenced-code inertness',
-    'PARTIAL: md_in_html, smarty, codehilite, meta, legacy_* are not modelled (search only); documented rendering is proved per component, compositions by correspondence/search.')
+    'PARTIAL: md_in_html, smarty, codehilite, legacy_* are not modelled (search only); for the eleven modelled extensions + meta: non-interference on the end-to-end model and documented rendering end to end for the document shapes of Props/C16Render*.lean, other compositions by correspondence/search.')
 add('C17', ['C17', 'C17Doc', 'C17Src', 'C16Order'], ['corr.toc', 'corr.pipelinex'],
     'Lean 4 proofs: unique() fresh + terminating (pigeonhole), assigned ids pairwise distinct, nest_toc_tokens flatten/outline theorems for all level sequences, footnote id bookkeeping (refs resolve, k refs → k distinct back-links)',
     'slugify and inline rendering of titles are parameters (theorems hold for every slugify); F-C17-1/2 are kernel-checked counterexamples.')
